@@ -24,7 +24,8 @@ from vlib.front import unparse, dotted, const_value, AnchorMissing
 
 M = 'phylib/io/model.py'
 TR = 'phylib/io/traces.py'
-FLOOR = 29
+FLOOR = 16          # decided obligations below this = the analysis lost its footing (exit 2); clean tree: 47
+RULES = ('C04.A1', 'C04.D1', 'C04.F1', 'C04.F2', 'C04.P1', 'C04.T1', 'C04.T2', 'C04.U1')          # every obligation group must report (holds / violated / undecided): a group that vanishes silently is an analysis error
 EXPLANATION = ('fx engine: a context-sensitive abstract interpretation of the whole call tree of TemplateModel.__init__ (paths as root + name '
                'pattern, arrays with their source file and map mode, objects with fields) collects every may-effect on the file system '
                'with its call chain and guards; the set is compared with the whitelist of the property. Loader name tables, unit '
@@ -169,8 +170,29 @@ def t1_t2_names(ctx):
         fi = repo.lookup_method(cls, lname)
         if fi is None:
             raise AnchorMissing('TemplateModel.%s' % lname)
-        calls = [c for f_ in repo.transparent_closure(fi) for c in f_.calls() if q.method_name(c) == '_find_path']
-        got = [tuple(const_value(a) for a in c.args) for c in calls]
+        calls, got = [], []
+        clo = repo.transparent_closure(fi)
+        for f_ in clo:
+            for c in f_.calls():
+                if q.method_name(c) != '_find_path':
+                    continue
+                names_ = tuple(const_value(a) for a in c.args)
+                if None in names_ and f_ is not fi and all(isinstance(a, ast.Name) and a.id in f_.real_params for a in c.args):
+                    # a helper extracted after the pinned tree that receives the file name(s): one lookup per call site of the helper
+                    idx = [f_.real_params.index(a.id) for a in c.args]
+                    for g_ in clo:
+                        for c2 in g_.calls():
+                            try:
+                                tg = repo.resolve_call(g_, c2, virtual=False)
+                            except Exception:
+                                tg = []
+                            if any(t.node is f_.node for t in tg):
+                                calls.append(c2)
+                                got.append(tuple(const_value(q.arg(c2, k_, f_.real_params[k_])) if q.arg(c2, k_, f_.real_params[k_]) is not None else None for k_ in idx))
+                    continue
+                calls.append(c)
+                got.append(names_)
+        unresolved = any(None in x for x in got)
         for g in groups:
             hit = [x for x in got if set(x) == set(g)]
             if hit:
@@ -179,6 +201,9 @@ def t1_t2_names(ctx):
                           '%s lists %s before the KiloSort name %s' % (lname, hit[0][0], g[0]))
             else:
                 near = [x for x in got if set(x) & set(g)]
+                if unresolved and not near:
+                    ctx.undecided('C04.T1', fi, '%s: a looked-up file name is not a constant; the lookup of %s was not found' % (lname, g))
+                    continue
                 ctx.violated('C04.T1', fi, calls[got.index(near[0])] if near else lname,
                              '%s looks up %s, the dataset schema names %s' % (lname, near[0] if near else got, g))
         # T2: belief contradiction
@@ -293,21 +318,40 @@ def a1_traces(ctx):
     cls = repo.cls(M, 'TemplateModel')
     fi = repo.lookup_method(cls, '_load_traces')
     cm = fi.params[1] if len(fi.params) > 1 else 'channel_map'
-    sub = [s for s in fi.nodes(ast.Subscript) if isinstance(s.slice, ast.Tuple) and len(s.slice.elts) == 2]
-    ok = any(unparse(s.slice.elts[0]) == ':' and unparse(s.slice.elts[1]) == cm for s in sub)
-    ctx.check(ok, 'C04.A1', fi, sub[0] if sub else '_load_traces', 'raw traces are lazily column-selected by the channel map (traces[:, channel_map])',
-              'raw traces are not column-selected by the channel map')
-    if sub:
-        okg = True
-        why = ''
-        tr_name = unparse(sub[0].value) if isinstance(sub[0].value, ast.Name) else 'traces'
-        for ifn, br in q.enclosing_ifs(fi, sub[0]):
-            allowed = br == 'body' and Pat().any(['%s is not None' % tr_name, '%s is not None and %s is not None' % (tr_name, cm), tr_name, '%s is not None' % cm,
-                                                   '%s is not None and len(%s) > 0' % (tr_name, cm)], ifn.test)
-            if not allowed:
-                okg, why = False, unparse(ifn.test)
-        ctx.check(okg, 'C04.A1', fi, sub[0], 'the channel-map selection is applied to every raw reader (it also drops raw channels that are not in the map)',
-                  'the channel-map selection is skipped depending on `%s`: a raw file with more channels than the channel map keeps its extra columns' % why)
+    # path-sensitive walk: on EVERY path that returns a raw reader obtained from get_ephys_reader, what is returned is reader[:, channel_map]; the bare reader
+    # may be returned only where the path has established that it is None
+    from vlib import proto
+    from vlib.proto import T, C, is_t, show, subterms
+    I = proto.Interp(repo, unroll=1, inline_depth=0)
+    outs = ctx_outs = I.run(fi, env={fi.params[0]: T('self'), cm: T('param', cm)})
+    ctx.analysed['paths'] += len(outs)
+    sel_ok, bare_bad, unknown = [], [], []
+    for kind, val, st in outs:
+        if kind != 'return':
+            continue
+        readers = [x for x in subterms(val) if is_t(x) and x[1] == 'call' and x[2] == 'get_ephys_reader']
+        if not readers:
+            continue
+        R_ = readers[0]
+        if val == R_:
+            key = ('is',) + tuple(sorted([C(None), R_], key=repr))
+            is_none = st.facts.get(key)
+            if is_none is True or st.facts.get(('truth', R_)) is False:
+                continue                    # the reader is None / falsy on this path
+            bare_bad.append((val, st))
+        elif is_t(val) and val[1] == 'index' and val[2] == R_ and is_t(val[3]) and val[3][1] == 'tuple' and len(val[3]) == 4 and val[3][3] == T('param', cm) and \
+                is_t(val[3][2]) and val[3][2][1] in ('slice', 'slice3') and all(x == C(None) for x in val[3][2][2:]):
+            sel_ok.append(val)
+        else:
+            unknown.append(val)
+    if bare_bad:
+        conds = sorted({show(k_[1] if k_[0] != 'is' else k_[2])[:50] + '=' + str(v_) for k_, v_ in bare_bad[0][1].facts.items() if k_[0] in ('truth', 'is')})
+        ctx.violated('C04.A1', fi, 'bare raw reader returned', 'on a path of _load_traces (%s) the raw reader is returned without the [:, %s] selection: a raw file with more channels than '
+                     'the channel map keeps its extra columns, and the columns are not in channel-map order' % (', '.join(conds)[:160], cm))
+    elif sel_ok and not unknown:
+        ctx.holds('C04.A1', fi, 'every path that returns a raw reader returns reader[:, channel_map] (lazy column selection by the channel map)', 'traces[:, channel_map]')
+    else:
+        ctx.undecided('C04.A1', fi, 'what _load_traces returns on the paths that open the raw data was not recognised (%s)' % [show(v)[:60] for v in unknown][:1])
     ld = repo.lookup_method(cls, '_load_data')
     calls = [c for c in ld.calls() if q.method_name(c) == '_load_traces']
     ctx.check(bool(calls) and calls[0].args and unparse(calls[0].args[0]) == 'self.channel_mapping', 'C04.A1', ld, calls[0] if calls else '_load_data',
